@@ -168,6 +168,13 @@ impl<VM: VMBinding> GCWorker<VM> {
             self.scheduler.work_buckets[bucket].add_prioritized(Box::new(work));
             return;
         }
+        #[cfg(mmtk_verif)]
+        {
+            let work: Box<dyn GCWork<VM>> = Box::new(work);
+            self.verif_local_added(bucket, work.as_ref());
+            self.local_work_buffer.push(work);
+        }
+        #[cfg(not(mmtk_verif))]
         self.local_work_buffer.push(Box::new(work));
     }
 
@@ -181,12 +188,32 @@ impl<VM: VMBinding> GCWorker<VM> {
             self.scheduler.work_buckets[bucket].add(work);
             return;
         }
+        #[cfg(mmtk_verif)]
+        {
+            let work: Box<dyn GCWork<VM>> = Box::new(work);
+            self.verif_local_added(bucket, work.as_ref());
+            self.local_work_buffer.push(work);
+        }
+        #[cfg(not(mmtk_verif))]
         self.local_work_buffer.push(Box::new(work));
     }
 
     /// Get the scheduler. There is only one scheduler per MMTk instance.
     pub fn scheduler(&self) -> &GCWorkScheduler<VM> {
         &self.scheduler
+    }
+
+    #[cfg(mmtk_verif)]
+    fn verif_local_added(&self, bucket: WorkBucketStage, work: &dyn GCWork<VM>) {
+        use crate::util::verif::rt;
+        use enum_map::Enum;
+        rt::event_str(rt::ev::PACKET_ADD, bucket.into_usize(), work.get_type_name());
+        rt::event(
+            rt::ev::PACKET_ADD,
+            bucket.into_usize(),
+            1,
+            work as *const dyn GCWork<VM> as *const u8 as usize,
+        );
     }
 
     /// Get a mutable reference of the copy context for this worker.
@@ -259,7 +286,26 @@ impl<VM: VMBinding> GCWorker<VM> {
             std::hint::black_box(unsafe { *(typename.as_ptr()) });
 
             probe!(mmtk, work, typename.as_ptr(), typename.len());
+            #[cfg(mmtk_verif)]
+            {
+                use crate::util::verif::rt;
+                rt::yield_point(rt::site::SCHED_WORKER_LOOP);
+                rt::event_str(rt::ev::PACKET_RUN, self.ordinal, typename);
+                rt::event(
+                    rt::ev::PACKET_RUN,
+                    self.ordinal,
+                    0,
+                    work.as_ref() as *const dyn GCWork<VM> as *const u8 as usize,
+                );
+            }
             work.do_work_with_stat(&mut self, mmtk);
+            #[cfg(mmtk_verif)]
+            crate::util::verif::rt::event(
+                crate::util::verif::rt::ev::PACKET_DONE,
+                self.ordinal,
+                0,
+                0,
+            );
         }
         debug!(
             "Worker exiting. ordinal: {}, {}",
@@ -267,6 +313,12 @@ impl<VM: VMBinding> GCWorker<VM> {
             crate::util::rust_util::debug_process_thread_id(),
         );
         probe!(mmtk, gcworker_exit);
+        #[cfg(mmtk_verif)]
+        {
+            use crate::util::verif::rt;
+            rt::event(rt::ev::WORKER_EXIT, self.ordinal, 0, 0);
+            rt::yield_point(rt::site::SCHED_SURRENDER);
+        }
 
         mmtk.scheduler.surrender_gc_worker(self);
     }
